@@ -4,7 +4,9 @@ from rv.checks import common
 PROP = "C13"
 RULE = (
     "case = (generated automaton over Q (exact) or Float; acyclic ones - with eps arcs, several initial states, shared "
-    "prefixes with unequal weights - for determinize / min_det, arbitrary convergent ones for push / trim / trim_vals). "
+    "prefixes with unequal weights - for determinize / min_det, plus two CYCLIC classes on which determinisation terminates "
+    "by construction (deterministic cyclic automata; nondeterministic cyclic automata whose states are split into twin copies "
+    "with fixed weight ratios) for determinize; arbitrary convergent ones for push / trim / trim_vals). "
     "Each result is read through the dense reference: EXACT equivalence with the input over Q (all strings at once, "
     "Tzeng's algorithm), strings up to the bound at 1e-8 for Float; structural monitors: <= 1 initial state, no eps arc, "
     "<= 1 non-zero arc per (state, symbol) after determinize / min_det; outgoing + final mass = 1 at every live state "
@@ -13,7 +15,7 @@ RULE = (
     "state or two arcs with one label leaving one state."
 )
 ASSUMPTIONS = ["rv/ref/fsaref.py exact equivalence test and dense semantics are correct",
-               "determinisation is only driven on acyclic inputs, where it must terminate; budget 200000 subset constructions"]
+               "determinisation is only driven on inputs where it must terminate (acyclic; cyclic deterministic; cyclic with twin copies of fixed ratio); budget 200000 subset constructions"]
 ANCHORS = ["genlm.grammar.wfsa.base:WFSA.determinize", "genlm.grammar.wfsa.base:WFSA.min_det", "genlm.grammar.wfsa.base:WFSA.push",
            "genlm.grammar.wfsa.base:WFSA.trim", "genlm.grammar.wfsa.base:WFSA.trim_vals", "genlm.grammar.wfsa.base:WFSA._trim",
            "genlm.grammar.wfsa.base:WFSA.accessible", "genlm.grammar.wfsa.base:WFSA.co_accessible", "genlm.grammar.wfsa.base:WFSA.backward"]
@@ -30,7 +32,8 @@ def gates(tier):
     return {
         "min_decided": {a: 300 * k for a in APIS[:5]} | {APIS[5]: 1500 * k},
         "shapes": {c: 5 * k for c in ["eps_arc", "multi_initial", "nondeterministic", "acyclic", "cyclic", "dead_state",
-                                      "unreachable_state", "sr:Q", "sr:Float", "empty_language", "zero_weight_arc", "tiny_weight", "gadget:globally-normalised"]},
+                                      "unreachable_state", "sr:Q", "sr:Float", "empty_language", "zero_weight_arc", "tiny_weight", "gadget:globally-normalised",
+                                      "cyclic-deterministic", "cyclic-twins"]},
         "min_events": {"determinize.subset_states": 500 * k},
         "min_hashseeds": 2,
     }
@@ -39,6 +42,8 @@ def gates(tier):
 def gen_case(rng, spec):
     from rv.gen import automata as GA
 
+    if rng.random() < 0.15:
+        return gen_cyclic_terminating(rng)
     acyclic = rng.random() < 0.6
     m = GA.gen_wfsa(rng, acyclic=acyclic, max_states=5, max_arcs=9)
     if acyclic and rng.random() < 0.5 and m["n"] >= 3:
@@ -59,6 +64,47 @@ def gen_case(rng, spec):
              "arcs": [[0, a, 1, Fr(1, 2)], [0, b, 2, Fr(1, 4)], [0, a, 3, Fr(1, 8)]] + ([[1, b, 2, Fr(0)]] if rng.random() < 0.5 else [])}
         return {"m": m, "R": rng.choice(["Q", "Float"]), "maxlen": 3, "gadget": "globally-normalised"}
     return {"m": m, "R": rng.choice(["Q", "Q", "Q", "Float"]), "maxlen": 4 if len(m["alphabet"]) < 3 else 3}
+
+
+def gen_cyclic_terminating(rng):
+    """Cyclic inputs on which weighted determinisation terminates by construction.
+
+    'deterministic': one initial state, no eps, one arc per (state, symbol): every subset is a singleton.
+    'twins': every state q of such an automaton is split into two copies (q,0), (q,1) that behave identically; an arc
+    i -a/w-> j becomes four arcs (i,*) -a-> (j,0) / (j,1) with weights w*p_j / w*(1-p_j): after one symbol every
+    subset is {(j,0): p_j, (j,1): 1-p_j}, so at most n+1 subsets exist although the automaton is nondeterministic and
+    cyclic (the copies have equal backward weights, so pushing keeps the ratios).  Exact arithmetic only."""
+    from fractions import Fraction as Fr
+
+    from rv.gen import automata as GA
+
+    alphabet = ["a", "b", "c"][: rng.randint(1, 3)]
+    n = rng.randint(2, 4)
+    arcs = []
+    for i in range(n):
+        for a in alphabet:
+            if rng.random() < 0.7:
+                arcs.append([i, a, rng.randrange(n), Fr(rng.randint(1, 3), 16)])
+    if not any(i == j or j < i for i, _, j, _ in arcs):
+        arcs.append([n - 1, alphabet[0], 0, Fr(1, 8)])
+        arcs = [x for k, x in enumerate(arcs) if not any(y[0] == x[0] and y[1] == x[1] for y in arcs[k + 1:])]
+    stop = [[i, Fr(rng.randint(1, 4), 4)] for i in range(n) if rng.random() < 0.6] or [[n - 1, Fr(1)]]
+    kind = rng.choice(["deterministic", "twins"])
+    if kind == "deterministic":
+        m = {"n": n, "names": GA.state_names(rng, n, alphabet, rng.choice(["int", "str", "tuple"])), "alphabet": alphabet,
+             "start": [[0, Fr(rng.randint(1, 4), 4)]], "stop": stop, "arcs": arcs}
+        return {"m": m, "R": rng.choice(["Q", "Q", "Float"]), "maxlen": 4 if len(alphabet) < 3 else 3, "terminating": kind}
+    p = [Fr(rng.randint(1, 3), 4) for _ in range(n)]
+    q0 = Fr(rng.randint(1, 3), 4)
+    idx = lambda i, c: 2 * i + c  # noqa: E731
+    arcs2 = []
+    for i, a, j, w in arcs:
+        for c in (0, 1):
+            arcs2.append([idx(i, c), a, idx(j, 0), w * p[j]])
+            arcs2.append([idx(i, c), a, idx(j, 1), w * (1 - p[j])])
+    m = {"n": 2 * n, "names": [("q", i, c) for i in range(n) for c in (0, 1)], "alphabet": alphabet,
+         "start": [[idx(0, 0), q0], [idx(0, 1), 1 - q0]], "stop": [[idx(i, c), w] for i, w in stop for c in (0, 1)], "arcs": arcs2}
+    return {"m": m, "R": "Q", "maxlen": 4 if len(alphabet) < 3 else 3, "terminating": kind}
 
 
 def live_states(D, structural=False):
@@ -124,7 +170,7 @@ def run_case(case, ctx):
         counter["n"] += 1
         ctx.events["determinize.subset_states"] += 1
         if counter["n"] > BUDGET:
-            raise StepBudgetExceeded(f"determinize built more than {BUDGET} subset states on an acyclic input")
+            raise StepBudgetExceeded(f"determinize built more than {BUDGET} subset states on an input where it must terminate")
         return orig_fd(*a, **kw)
 
     def equivalent(api, name, res, c2):
@@ -164,8 +210,13 @@ def run_case(case, ctx):
             seen.add((i, a))
         ctx.check(api, dup is None, f"{name}/two-arcs-one-symbol", c2, {"state_symbol": dup})
 
-    if "acyclic" in cls:
-        for api, name in ((APIS[0], "determinize"), (APIS[1], "min_det")):
+    term = case.get("terminating")
+    if term:
+        cls.add("cyclic-" + term)
+        ctx.shape["cyclic-" + term] += 1
+    if "acyclic" in cls or term:
+        # min_det determinises the REVERSED automaton, which need not terminate on the cyclic classes
+        for api, name in ((APIS[0], "determinize"), (APIS[1], "min_det"))[: 2 if "acyclic" in cls else 1]:
             c2 = dict(case, op=name)
             base.frozendict = counting_frozendict
             counter["n"] = 0
